@@ -16,4 +16,12 @@ void *jwt_malloc(size_t size) { if (nondet_bool()) { g_lib_fail = 1; return NULL
 void *jwt_malloc(size_t size) { if (nondet_bool()) return NULL; void *p = malloc(size); __CPROVER_assume(p != NULL); return p; }
 #endif
 #endif
+#ifdef VERIF_ALLOC_NOFREE
+/* release is RECORDED, not performed: cbmc's free() of an object of symbolic size that was
+ * written at symbolic offsets makes the formula explode (tens of GB).  Units using this
+ * variant do not detect use-after-free/double free of that object and say so. */
+const void *g_freed_last; unsigned g_freed_calls;
+void __jwt_freemem(void *ptr) { __CPROVER_assert(ptr == NULL || __CPROVER_POINTER_OFFSET(ptr) == 0, "__jwt_freemem: start of an object"); g_freed_last = ptr; if (g_freed_calls < 1000) g_freed_calls++; }
+#else
 void __jwt_freemem(void *ptr) { free(ptr); }
+#endif
